@@ -154,8 +154,63 @@ def master_case(ctx, idx, rng):
     h.absorb_counters()
 
 
+def relevel_case(ctx, idx, rng):
+    """Directed: one rack of 2-4 empty servers; two instances of one application limit themselves to one per rack (the
+    second stays pending); a third instance of the application - its manifest limits it per SERVER instead - is submitted
+    to the quiescent cell.  Independent scan: an empty up server of its partition has room and the probe limits only
+    the server level, where the count is 0 - it fits."""
+    import time as _time
+    from treadmill import scheduler as sch
+    sch.DIMENSION_COUNT = 3
+    clock = env.VClock()
+    clock.install()
+    try:
+        cell = sch.Cell('cell')
+        rack = sch.Bucket('rack:r0', traits=0)
+        rack.level = 'rack'
+        cell.add_node(rack)
+        n = rng.randint(2, 4)
+        for i in range(n):
+            rack.add_node(sch.Server('s%d' % i, [10, 10, 10], traits=0, valid_until=clock.peek() + 100000))
+        alloc = cell.partitions[None].allocation
+        demand = [rng.randint(1, 3) for _ in range(3)]
+        level_a, level_p = rng.choice([(('rack',), 'server'), (('cell',), 'server'), (('cell',), 'rack'),
+                                       (('server', 'rack'), 'server'), (('rack', 'cell'), 'server'), (('server', 'cell'), 'server')])
+        how = 'other-levels' if len(level_a) == 1 else 'fewer-levels'
+        apps = [sch.Application('foo.app#%010d' % i, 50, list(demand), 'foo.app', affinity_limits={lv: 1 for lv in level_a}) for i in (1, 2)]
+        for a in apps:
+            cell.add_app(alloc, a)
+        cell.schedule()
+        cell.schedule()
+        if [bool(a.server) for a in apps] != [True, False]:
+            ctx.count('relevel_directed_setup_differs')
+            return
+        probe_ = sch.Application('foo.app#%010d' % 3, 50, [x + rng.choice([0, 1]) for x in demand], 'foo.app',
+                                 affinity_limits={level_p: 2 if level_p == 'rack' else 1})
+        cell.add_app(alloc, probe_)
+        cengine.MON.install()
+        cengine.MON.reset_cycle()
+        cell.schedule()
+        ctx.count('probe_same_affinity_limits_on_%s_directed' % how.replace('-', '_'))
+        ctx.count('probe_fits')
+        if probe_.server is None:
+            ctx.violation('fits-but-skipped-by-feasibility-tracker:same-affinity-limits-on-' + how,
+                          'rack of %d servers, %s (limit 1 on %r) on %s, its twin pending; %s with limits on %r only and '
+                          'demand %s was left pending although %d servers are empty' % (
+                              n, apps[0].name, level_a, apps[0].server, probe_.name, level_p, list(probe_.demand), n - 1),
+                          case=dict(ops=[('directed-relevel', n, demand, level_a, level_p)]))
+        else:
+            ctx.count('probe_fits_placed')
+        ctx.done(case_desc=('relevel-directed', n, demand, level_a, level_p), nontrivial=True)
+    finally:
+        env.VClock.uninstall()
+
+
 def run(ctx):
     for idx, rng in ctx.cases():
+        if idx % 40 == 1:
+            relevel_case(ctx, idx, rng)
+            continue
         if idx % 4 == 3:
             master_case(ctx, idx, rng)
             continue
@@ -234,6 +289,8 @@ def run(ctx):
                             shapes = []
                         else:
                             mech = 'fits-but-left-pending'
+                        if spec.get('relevel'):
+                            mech += ':same-affinity-limits-on-' + spec['relevel']
                         ctx.violation(mech, 'probe %s fits on %s but was left pending' % (desc['probe'], fit),
                                       witness=desc, case=dict(ops=h.drv.ops[-60:], probe=desc))
                 else:
